@@ -34,8 +34,8 @@ KINDS = {
 ROOT_TAG = {k: k for k in KINDS}
 
 
-def server(want, slack=None):
-    k = (want, slack)
+def server(want, slack=None, only=None):
+    k = (want, slack) if only is None else (want, slack, only)
     if k not in _c:
         def lst(svc):
             return [(u, b) for b, u in EP[svc].items()]
@@ -51,6 +51,8 @@ def server(want, slack=None):
         conf['service']['pdp'] = {'endpoints': {'authz_service': lst('authz_service')}}
         if slack is not None:
             conf['accepted_time_diff'] = slack
+        if only is not None:
+            conf['only_use_keys_in_metadata'] = only
         from saml2_tophat.config import IdPConfig
         from saml2_tophat.server import Server
         c = IdPConfig()
@@ -136,6 +138,15 @@ def cells(thorough):
                               ('+01:00', DAY + 5), ('+01:00', -(DAY + 1800))):
                 out.append(dict(t='table', kind=kind, binding=binding, sig='none', want=None, dest='own', ii=ii, version='2.0',
                                 damage='none', slack=None, style=style))
+    # keys outside the metadata allowed (only_use_keys_in_metadata False): still only when the issuer's metadata has none
+    for kind, binding in (('AuthnRequest', POST), ('LogoutRequest', SOAP), ('AttributeQuery', SOAP), ('LogoutRequest', POST)):
+        for sig, want, only in itertools.product(('non-metadata-key+keyinfo', 'other-sp-key+keyinfo', 'valid', 'non-metadata-key'), (None, True), (False, True)):
+            out.append(dict(t='table', kind=kind, binding=binding, sig=sig, want=want, dest='own', ii=0, version='2.0', damage='none', slack=None, only=only))
+    # LogoutRequest carrying its own NotOnOrAfter: the IssueInstant window applies all the same
+    for binding in KINDS['LogoutRequest'][2]:
+        for ii, slack in itertools.product((DAY + 5, -(DAY + 5), 400 * DAY, -400 * DAY, 0), (None, 60)):
+            out.append(dict(t='table', kind='LogoutRequest', binding=binding, sig='none', want=None, dest='own', ii=ii, version='2.0', damage='none',
+                            slack=slack, extra_attrs=' NotOnOrAfter="%s"' % forge.ts(env.BASE + 3600)))
     # schema damage below mandatory children
     for kind, dmg in (('AttributeQuery', 'subject-confirmation-without-method'), ('AuthnQuery', 'subject-confirmation-without-method'),
                       ('AuthzDecisionQuery', 'subject-confirmation-without-method'), ('LogoutRequest', 'name-id-without-text'),
@@ -175,9 +186,11 @@ DMG_EFFECTIVE = ('subject-confirmation-without-method', 'nameid-policy-bad-boole
 
 def build(c):
     kind, binding = c['kind'], c['binding']
-    key = {'none': None, 'valid': 'spX', 'invalid': 'spX', 'non-metadata-key': 'mallory', 'other-sp-key': 'spY'}[c['sig']]
+    key = {'none': None, 'valid': 'spX', 'invalid': 'spX', 'non-metadata-key': 'mallory', 'other-sp-key': 'spY',
+           'non-metadata-key+keyinfo': 'mallory', 'other-sp-key+keyinfo': 'spY'}[c['sig']]
     xml = forge.request(env.BASE, kind=kind, dest=dest_value(c['dest'], kind, binding), version=c['version'], issue_offset=c['ii'], sign=key,
-                        et_prefixes=(binding == SOAP), style=c.get('style', 'Z'))
+                        et_prefixes=(binding == SOAP), style=c.get('style', 'Z'), keyinfo=('x509:' + key) if c['sig'].endswith('+keyinfo') else None,
+                        extra_attrs=c.get('extra_attrs', ''))
     if c['sig'] == 'invalid':
         xml = xml.replace('Version="2.0"', 'Version="2.0" Consent="urn:x"', 1)
     return damage(xml, kind, c['damage'])
@@ -197,9 +210,9 @@ def must_reject(c):
     slack = c['slack'] or 0
     if abs(c['ii']) > DAY + slack + 1:
         why.append('issue-instant-outside-window')
-    if c['sig'] in ('invalid', 'non-metadata-key', 'other-sp-key'):
+    if c['sig'] in ('invalid', 'non-metadata-key', 'other-sp-key', 'non-metadata-key+keyinfo', 'other-sp-key+keyinfo'):
         why.append('signature-does-not-verify-under-issuers-key')
-    if c['want'] is True and c['sig'] == 'none' and kind == 'AuthnRequest':
+    if c['want'] is True and c['sig'] == 'none':
         why.append('unsigned-although-signed-requests-wanted')
     if c['damage'] in DMG_EFFECTIVE:
         why.append('schema-invalid:%s' % c['damage'])
@@ -216,7 +229,7 @@ def evaluate(c):
 def _evaluate(c):
     env.Clock.set(env.BASE)
     if c['t'] == 'table':
-        srv = server(c['want'], c['slack'])
+        srv = server(c['want'], c['slack'], c.get('only'))
         xml = build(c)
         r = parse(srv, c['kind'], encode(xml, c['binding']), c['binding'])
         why = must_reject(c) if r['accept'] else []
@@ -439,7 +452,7 @@ def run(ctx):
             'samples': [{'cell': {k: str(v)[:80] for k, v in cs[i].items()}, 'result': res[i]} for i in (0, len(cs) // 2)],
             'exhaustive': True, 'table_cells': n_table, 'edit_states': n_edit, 'encoding_damage_cases': n_trunc, 'accepted': acc,
             'valid_requests_rejected_noted': valid_rejected, 'distinct_outcomes': len(hist), 'outcome_histogram': hist,
-            'rule': '(a) %s product: 8 request types x their bindings x signature state (none, valid, invalid, non-metadata key, other SP\'s key) x want_authn_requests_signed (absent, False, True) x Destination (absent, own, own endpoint of another service / binding, foreign) x IssueInstant offset (0, +-(1 day -5 s), +-(1 day +5 s), +-400 d; with allowance 0 and 60) x Version; schema damage below mandatory children; (b) every depth-1 tree edit%s of validly signed AuthnRequest/LogoutRequest/AttributeQuery (C01 alphabet), text/attr/delete edits also on a receiver that has just accepted the genuine request; (b2) the complete signature-wrapping grammar of C01 around a validly signed AuthnRequest (signed requests wanted / not wanted), LogoutRequest and AttributeQuery: modified twin with fresh or same ID x place of the genuine request (absent, Extensions, Issuer, Signature/Object, last child) x genuine keeps its signature x up to two signature copies in 6 places each referencing the genuine or the twin; (b3) every sequence of 2 (thorough: 3) signed requests from two SPs, each signed with its own, the key of the other SP or a foreign key, on one fresh receiver; IssueInstant also written in other zones (+13:00, +14:00, -11:00, -12:00, +01:00) and with fractions; (c) %s truncation of the transport encoding + garbled encodings; all through the real Server.parse_* entry points' % ('complete' if ctx.thorough else 'pairwise-around-a-base-cell (complete for AuthnRequest/POST pairs)', ' + depth-2 signature relocation family' if ctx.thorough else '', 'every' if ctx.thorough else 'every 7th + the last 40'),
+            'rule': '(a) %s product: 8 request types x their bindings x signature state (none, valid, invalid, non-metadata key, other SP\'s key) x want_authn_requests_signed (absent, False, True; an unsigned request of any type is refused when it is on) x Destination (absent, own, own endpoint of another service / binding, foreign) x IssueInstant offset (0, +-(1 day -5 s), +-(1 day +5 s), +-400 d; with allowance 0 and 60) x Version; schema damage below mandatory children; (b) every depth-1 tree edit%s of validly signed AuthnRequest/LogoutRequest/AttributeQuery (C01 alphabet), text/attr/delete edits also on a receiver that has just accepted the genuine request; (b2) the complete signature-wrapping grammar of C01 around a validly signed AuthnRequest (signed requests wanted / not wanted), LogoutRequest and AttributeQuery: modified twin with fresh or same ID x place of the genuine request (absent, Extensions, Issuer, Signature/Object, last child) x genuine keeps its signature x up to two signature copies in 6 places each referencing the genuine or the twin; (b3) every sequence of 2 (thorough: 3) signed requests from two SPs, each signed with its own, the key of the other SP or a foreign key, on one fresh receiver; signatures by foreign keys with the certificate of the signer embedded, with only_use_keys_in_metadata on and off; LogoutRequests carrying NotOnOrAfter with IssueInstant outside the window; IssueInstant also written in other zones (+13:00, +14:00, -11:00, -12:00, +01:00) and with fractions; (c) %s truncation of the transport encoding + garbled encodings; all through the real Server.parse_* entry points' % ('complete' if ctx.thorough else 'pairwise-around-a-base-cell (complete for AuthnRequest/POST pairs)', ' + depth-2 signature relocation family' if ctx.thorough else '', 'every' if ctx.thorough else 'every 7th + the last 40'),
         },
         'assumptions': ['table cells / federations are evaluated in a process time zone (UTC, UTC+5, UTC-5) chosen as a function of their coordinates: verdicts must not depend on it', 'every explored (service, binding) has a configured endpoint (the destination test is skipped otherwise and the statement does not cover that case)',
                         'one-directional oracle; xmlsec1 model at the seam'],
